@@ -243,3 +243,31 @@ impl Encoder<(RequestId, Tag, MaybeControls)> for LdapCodec {
         Ok(())
     }
 }
+
+/// Verification-only entry point to the response decoder.
+#[cfg(ldap3_verif)]
+#[allow(clippy::type_complexity)]
+pub fn verif_decode(
+    buf: &mut BytesMut,
+) -> Result<Option<(RequestId, (Tag, Vec<Control>))>, io::Error> {
+    decode_inner(buf)
+}
+
+/// Verification-only entry point to the request encoder.
+#[cfg(ldap3_verif)]
+pub fn verif_encode(
+    id: RequestId,
+    tag: Tag,
+    controls: Option<Vec<RawControl>>,
+    into: &mut BytesMut,
+) -> io::Result<()> {
+    let mut codec = LdapCodec {
+        #[cfg(feature = "gssapi")]
+        has_decoded_data: false,
+        #[cfg(feature = "gssapi")]
+        sasl_param: Arc::new(RwLock::new((false, 0))),
+        #[cfg(feature = "gssapi")]
+        client_ctx: Arc::new(Mutex::new(None)),
+    };
+    codec.encode((id, tag, controls), into)
+}
